@@ -69,6 +69,9 @@ impl Layer for Reimport {
             return Verdict::skip("bash: syntax error in the original");
         }
         let brush_orig = run_case(ShellKind::Brush, &spec(orig.clone(), vec![]));
+        if bash_orig.status == bvcommon::exec::Status::Timeout || brush_orig.status == bvcommon::exec::Status::Timeout {
+            return Verdict::inconclusive("original timed out");
+        }
         if brush_orig.panicked() {
             return Verdict::fail(format!("brush crashed on the original: {}", brush_orig.err_lossy()));
         }
@@ -83,6 +86,9 @@ impl Layer for Reimport {
             let re = format!("{PROLOGUE}{text}\n{call}");
             // (a) fresh brush must accept it and behave like brush's original
             let b2 = run_case(ShellKind::Brush, &spec(re.clone(), vec![]));
+            if b2.status == bvcommon::exec::Status::Timeout {
+                return Verdict::inconclusive("re-import timed out");
+            }
             if b2.stdout != brush_orig.stdout || b2.status != brush_orig.status {
                 return Verdict::fail(format!(
                     "{form}: text printed by brush, re-read by brush, behaves differently: original {:?}/{:?} vs re-imported {:?}/{:?} (stderr {})\n--- printed ---\n{text}",
